@@ -26,7 +26,7 @@ for p in props:
     })
 m = {
     "version": 1,
-    "setup_cmd": "cd /verif/harness && CARGO_NET_OFFLINE=true cargo build --release",
+    "setup_cmd": "cd /verif/harness && CARGO_NET_OFFLINE=true cargo build --release && CARGO_NET_OFFLINE=true cargo build",
     "hooks": {
         "guard": "--cfg luqing_studio_nervusdb_verif",
         "enable": "rustflags in /verif/.cargo/config.toml ([build] rustflags = [\"--cfg\", \"luqing_studio_nervusdb_verif\"]); the harness crate depends on the /repo crates by path, so every build uses /repo's working tree",
